@@ -659,8 +659,8 @@ enum Plant {
     LostUndo,
     /// after ROLLBACK TO in the unindexed table: hidden INSERT (savepoint truncation off by one)
     RbtExtraRow,
-    /// after a handle drop on the int-PK table whose script inserted key 3: hidden insert + delete of key 3 is NOT done,
-    /// instead the uniqueness baseline is perturbed: a hidden committed row 3 is added and hidden from scans by deleting it
+    /// after a handle drop on the int-PK table whose script inserted key 3: a stale PK-index entry for key 3 is
+    /// planted (rows and COUNT(*) unchanged): only the look-up / uniqueness layers can see it
     HiddenKey,
 }
 impl Plant {
@@ -932,11 +932,10 @@ impl<'a> Runner<'a> {
                     let _ = t.exec("UPDATE t SET b = b + 1 WHERE id = 1");
                 }
                 if self.plant == Plant::HiddenKey && table == Table::IntPk && sc.term == Term::DropClone && sc.ops.contains(&Op::Ins(3)) {
-                    // a key that no scan shows but the PK index still holds
-                    let _ = t.exec("INSERT INTO t VALUES (3, 30, 300)");
+                    // a key that no scan shows but the PK index still holds (made with the defect of KF-C07-03)
                     let _ = t.exec("BEGIN");
-                    let _ = t.exec("DELETE FROM t WHERE id = 3");
-                    let _ = t.exec("COMMIT");
+                    let _ = t.exec("UPDATE t SET id = 3 WHERE id = 1");
+                    let _ = t.exec("ROLLBACK");
                 }
                 let kind = sc.term.kind();
                 let now = observe_all(t.db(), &q);
@@ -1192,6 +1191,14 @@ impl<'a> Explorer<'a> {
                 _ => {}
             }
         }
+        let remainder = !sc.ops.iter().any(|o| o.known_broken_undo()) && sc.table != Table::Split;
+        if remainder {
+            rep.count("remainder(no DELETE / DELETE all / UPDATE key, no root split):scripts", 1);
+            rep.count(&format!("remainder:scripts:len{}", sc.ops.len()), 1);
+            if out.failures.is_empty() {
+                rep.count("remainder:scripts_all_layers_equal", 1);
+            }
+        }
         if out.failures.is_empty() {
             rep.count("scripts_all_layers_equal", 1);
             rep.count(&format!("scripts_all_layers_equal:{}", sc.term.kind()), 1);
@@ -1321,7 +1328,7 @@ impl Check for C07 {
     }
 
     fn run(&self, ctx: &Ctx, rep: &mut Reporter) {
-        for c in ["scripts_all_layers_equal", "rollback_to_checks", "root_split_inside_transaction", "explain_pk_lookup_uses_index", "explain_secondary_lookup_uses_index", "op:INSERT", "op:UPDATE-a", "op:UPDATE-b", "op:UPDATE-key", "op:DELETE", "op:DELETE-all", "op:SAVEPOINT", "op:RELEASE", "op:ROLLBACK-TO"] {
+        for c in ["scripts_all_layers_equal", "remainder:scripts_all_layers_equal", "rollback_to_checks", "root_split_inside_transaction", "explain_pk_lookup_uses_index", "explain_secondary_lookup_uses_index", "op:INSERT", "op:UPDATE-a", "op:UPDATE-b", "op:UPDATE-key", "op:DELETE", "op:DELETE-all", "op:SAVEPOINT", "op:RELEASE", "op:ROLLBACK-TO"] {
             rep.expect_nonzero(c);
         }
         // the look-ups of the observation really go through the indexes
@@ -1366,12 +1373,7 @@ fn main() {
     vcore::main(&C07)
 }
 
-fn cpu_ms() -> f64 {
-    let mut ru: libc::rusage = unsafe { std::mem::zeroed() };
-    unsafe { libc::getrusage(libc::RUSAGE_SELF, &mut ru) };
-    (ru.ru_utime.tv_sec + ru.ru_stime.tv_sec) as f64 * 1000.0 + (ru.ru_utime.tv_usec + ru.ru_stime.tv_usec) as f64 / 1000.0
-}
-/// development aids (counting, timing) — not part of any verdict
+/// development aid (sizes of the enumeration) — not part of any verdict
 fn dev(mode: &str) {
     match mode {
         "count" => {
@@ -1413,60 +1415,6 @@ fn dev(mode: &str) {
                 }
             }
         }
-        "time" => {
-            let base = std::path::PathBuf::from(format!("/dev/shm/turdb_verif/c07dev_{}", std::process::id()));
-            let mut r = Runner::new(&base, Plant::None);
-            println!("calibrate: {:?}", r.calibrate());
-            for table in TABLES {
-                let mut scripts = vec![];
-                gen_scripts(table, Start::Rows12, 3, true, false, false, &mut |ops| scripts.push(ops.to_vec()));
-                let t0 = std::time::Instant::now();
-                let mut fails = 0;
-                let n = scripts.len().min(300);
-                for ops in scripts.iter().take(n) {
-                    let sc = Script { table, start: Start::Rows12, ops: ops.clone(), term: Term::Rollback };
-                    if let Ok(o) = r.run(&sc) {
-                        fails += (!o.failures.is_empty()) as u32;
-                    }
-                }
-                println!("{}: {} scripts of 3 ops, {:.2} ms each, {} failing", table.name(), n, t0.elapsed().as_secs_f64() * 1000.0 / n as f64, fails);
-            }
-            let _ = std::fs::remove_dir_all(&base);
-        }
-        "prof" => {
-            let base = std::path::PathBuf::from(format!("/dev/shm/turdb_verif/c07dev_{}", std::process::id()));
-            for table in [Table::Plain, Table::IntPk] {
-                let n = 200;
-                let mut acc = [0f64; 6];
-                for _ in 0..n {
-                    let t0 = std::time::Instant::now();
-                    let t = TestDb::create(&base, "p").unwrap();
-                    let t1 = std::time::Instant::now();
-                    for s in setup_sql(table, Start::Rows12, 0) {
-                        let _ = t.exec(&s);
-                    }
-                    let t2 = std::time::Instant::now();
-                    let sc = Script { table, start: Start::Rows12, ops: vec![Op::UpdA(1)], term: Term::Rollback };
-                    let q = queries(&sc);
-                    let _o = observe_all(t.db(), &q);
-                    let t3 = std::time::Instant::now();
-                    let _ = t.exec("BEGIN");
-                    let _ = t.exec(&Op::UpdA(1).sql(table));
-                    let _ = t.exec("ROLLBACK");
-                    let t4 = std::time::Instant::now();
-                    let c = t.db().clone();
-                    drop(c);
-                    let t5 = std::time::Instant::now();
-                    drop(t);
-                    let t6 = std::time::Instant::now();
-                    for (i, d) in [t1 - t0, t2 - t1, t3 - t2, t4 - t3, t5 - t4, t6 - t5].iter().enumerate() {
-                        acc[i] += d.as_secs_f64() * 1000.0 / n as f64;
-                    }
-                }
-                println!("{}: create {:.2} setup {:.2} observe {:.2} txn {:.2} clone+drop {:.2} drop+rm {:.2} ms", table.name(), acc[0], acc[1], acc[2], acc[3], acc[4], acc[5]);
-            }
-            let _ = std::fs::remove_dir_all(&base);
-        }
-        _ => println!("modes: count | time | prof"),
+        _ => println!("modes: count"),
     }
 }
